@@ -44,6 +44,7 @@ type oresp struct {
 	Body     string   // entity body (identity)
 	Chunks   []int    // chunk sizes when Framing == "chunked" (sum == len(Body))
 	Trailers []hfield // trailer fields (declared in Trailer: when DeclareTrailers)
+	Undeclared []hfield // trailer fields sent after the declared ones without being named in Trailer
 	Declare  bool     // send "Trailer: k1, k2" in the head
 	HeadTE   bool     // bodiless head that still carries Transfer-Encoding: chunked (HEAD/204/304 replies)
 	HeadCL   int      // bodiless head that carries this Content-Length (-1: none)
@@ -135,6 +136,9 @@ func (o *originSrv) wire(r *oresp, gz bool) []byte {
 		}
 		sb.WriteString("0\r\n")
 		for _, t := range r.Trailers {
+			fmt.Fprintf(&sb, "%s: %s\r\n", t.K, t.V)
+		}
+		for _, t := range r.Undeclared {
 			fmt.Fprintf(&sb, "%s: %s\r\n", t.K, t.V)
 		}
 		sb.WriteString("\r\n")
@@ -670,11 +674,18 @@ func genResp(r *rng.R, meth string) oresp {
 				if r.Chance(1, 2) {
 					o.Trailers = append(o.Trailers, hfield{"X-Checksum", "abc"})
 				}
+				if r.Chance(1, 3) {
+					o.Trailers = append(o.Trailers, hfield{"X-T", "second value"})
+				}
+			}
+			if r.Chance(1, 5) {
+				o.Undeclared = []hfield{{"X-Undeclared", "u"}}
 			}
 		default:
 			o.Framing = "close"
 		}
 		if o.Proto == "HTTP/1.0" && o.Framing == "chunked" {
+			o.Undeclared = nil
 			o.Framing, o.Chunks, o.Declare, o.Trailers = "close", nil, false, nil
 		}
 		if o.Framing == "cl" && r.Chance(1, 3) {
@@ -810,6 +821,25 @@ func corpus() []ecaseJ {
 		{Class: "origin-body-breaks-after-head:corrupt-solicited-gzip", Pipeline: true, Exchs: []exchJ{
 			{get("HTTP/1.1"), oresp{Proto: "HTTP/1.1", Code: 200, Reason: "OK", Framing: "cl", Body: strings.Repeat("some compressible text, ", 400), Gzip: true, Break: "gzip", HeadCL: -1, KeepOpen: true}},
 			{get("HTTP/1.1"), plain}}},
+		{Class: "trailers:declared-several-keys-and-values", Exchs: []exchJ{
+			{get("HTTP/1.1"), oresp{Proto: "HTTP/1.1", Code: 200, Reason: "OK", Framing: "chunked", Body: "hello world", Chunks: []int{5, 6}, Declare: true,
+				Trailers: []hfield{{"X-T", "v1"}, {"x-checksum", "abc"}, {"X-T", "v2"}, {"Expires", "0"}}, HeadCL: -1, KeepOpen: true}},
+			{get("HTTP/1.1"), plain}}},
+		{Class: "trailers:declared-but-not-sent", Exchs: []exchJ{
+			{get("HTTP/1.1"), oresp{Proto: "HTTP/1.1", Code: 200, Reason: "OK", Framing: "chunked", Body: "hello", Chunks: []int{5}, Declare: true,
+				Trailers: []hfield{{"X-T", "v1"}}, Fields: []hfield{{"Trailer", "X-Never"}}, HeadCL: -1, KeepOpen: true}},
+			{get("HTTP/1.1"), plain}}},
+		{Class: "trailers:undeclared-only", Exchs: []exchJ{
+			{get("HTTP/1.1"), oresp{Proto: "HTTP/1.1", Code: 200, Reason: "OK", Framing: "chunked", Body: "hello", Chunks: []int{5},
+				Undeclared: []hfield{{"X-Undeclared", "u"}}, HeadCL: -1, KeepOpen: true}},
+			{get("HTTP/1.1"), plain}}},
+		{Class: "trailers:declared-and-undeclared", Exchs: []exchJ{
+			{get("HTTP/1.1"), oresp{Proto: "HTTP/1.1", Code: 200, Reason: "OK", Framing: "chunked", Body: "hello", Chunks: []int{5}, Declare: true,
+				Trailers: []hfield{{"X-T", "v1"}}, Undeclared: []hfield{{"X-Undeclared", "u"}, {"A-Undeclared", "a"}}, HeadCL: -1, KeepOpen: true}},
+			{get("HTTP/1.1"), plain}}},
+		{Class: "trailers:http10-client", Exchs: []exchJ{
+			{h10, oresp{Proto: "HTTP/1.1", Code: 200, Reason: "OK", Framing: "chunked", Body: "hello", Chunks: []int{5}, Declare: true,
+				Trailers: []hfield{{"X-T", "v1"}}, HeadCL: -1, KeepOpen: true}}}},
 		{Class: "chunked-with-trailers", Exchs: []exchJ{{get("HTTP/1.1"), chTr}, {get("HTTP/1.1"), plain}, {xreq{Method: "HEAD", Proto: "HTTP/1.1"}, plain}, {get("HTTP/1.1"), ch}}},
 	}...)
 }
@@ -965,8 +995,17 @@ func renderE2E(c ecaseJ, res connResult, snaps []snapshot, sawAE []string, relax
 				order = append(order, strings.TrimSpace(k))
 			}
 		}
+		late := http.Header{}
+		if x.Resp.Framing == "chunked" {
+			for _, t := range append(append([]hfield(nil), x.Resp.Trailers...), x.Resp.Undeclared...) {
+				k := http.CanonicalHeaderKey(t.K)
+				if _, declared := tr[k]; !declared {
+					late[k] = append(late[k], t.V)
+				}
+			}
+		}
 		rj := respJ{Major: s.Major, Minor: s.Minor, Code: s.Code, Status: s.Status, Hdr: s.Hdr, CL: s.CL,
-			Chunked: len(s.TE) > 0 && s.TE[0] == "chunked", Trailer: tr, Body: reads, Close: s.Close, Uncompressed: s.Uncompressed}
+			Chunked: len(s.TE) > 0 && s.TE[0] == "chunked", Trailer: tr, Body: reads, Close: s.Close, Uncompressed: s.Uncompressed, Late: late}
 		maj, min := 1, 1
 		if x.Req.Proto == "HTTP/1.0" {
 			min = 0
@@ -1303,7 +1342,7 @@ func timingScenarios(gap int) []tscen {
 		if handler {
 			pre = "handler-"
 		}
-		for _, t := range []struct{ n, term string }{{"lf", "\n\n"}, {"cr", "\r\r"}, {"crlf", "\r\n\r\n"}} {
+		for _, t := range []struct{ n, term string }{{"lf", "\n\n"}, {"cr", "\r\r"}, {"crlf", "\r\n\r\n"}, {"mixed-lf-cr", "\n\r"}} {
 			out = append(out, sseScen(pre+"sse-chunked-"+t.n, t.term, "chunked", handler, g11, gap))
 			out = append(out, sseScen(pre+"sse-close-delimited-"+t.n, t.term, "close", handler, g11, gap))
 		}
